@@ -149,3 +149,7 @@ PROPERTY = Property(
     assumptions=["gamma callbacks of the generated family are scale- and shift-invariant by construction",
                  "shifted games that leave [-20 beta, 20 beta] and games at a TM branch boundary are excluded (counted)"],
 )
+
+from vf import opt as _opt  # noqa: E402
+
+PROPERTY.clauses.append(_opt.optimised("C16", next(c for c in PROPERTY.clauses if c.name == "scale"), quick=64, thorough=640))
